@@ -728,8 +728,13 @@ class ExcelCompiler:
                 if verify_tree and cell is not None and addr not in verified:
                     # the cells it was calculated from still need verifying
                     verified.add(addr)
-                    to_verify.extend(needed for needed in cell.needed_addresses
-                                     if needed not in verified)
+                    try:
+                        to_verify.extend(
+                            needed for needed in cell.needed_addresses
+                            if needed not in verified)
+                    except Exception:  # noqa: S110
+                        # a formula which cannot be parsed has no precedents
+                        pass
                 exc_str_split = exc_str.split('\n')
 
                 if 'is not implemented' in exc_str:
